@@ -81,7 +81,7 @@ func main() {
 	quick := f.Tier != "thorough"
 	mult := 1
 	if !quick {
-		mult = 8
+		mult = 30
 	}
 	if f.Search {
 		mult *= 20
